@@ -147,7 +147,13 @@ class C03(Prop):
             "small export edited line by line — blank lines and lines starting with '#', rows cut short or too long, missing sample rows or header "
             "lines, missing trailing delimiters or final terminator, '#' and blanks in names, non-integer/negative/missing scan "
             "numbers, ragged MainRuns lines, single selected lines, names with one line), where the property is silent and pewlib "
-            "is compared with the model only; non-trivial = every export and every text case")
+            "is compared with the model only; 10%: histories (kind 'history': 3..7 steps on up to three paths, each step optionally "
+            "writes an export of either layout / another delimiter-decimal pair / a text that is no export onto the path — modification "
+            "time kept by os.utime, carried over by os.replace, stamped by the file system, moved on, or one coarse second — and then "
+            "calls the sniffer, load (full on/off), the data and params readers; every call judged by the Lean specification of what the "
+            "path holds at that moment); the export stream also draws 30..120 elements, non-ASCII / quoted / str.splitlines-separator "
+            "names, irregular Time channels, values at the ends of the binary64 range, str paths, positional arguments, "
+            "comma_decimal=True on comma-free exports, load(full=False); non-trivial = every export, history and text case")
     trusted = [
         "float()/int()/str() and the field conversion of np.genfromtxt: a field parses to float(token) (NaN when that fails, "
         "loose mode), a scan field of the columns layout to int(token) (-1 when that fails); "
@@ -156,7 +162,9 @@ class C03(Prop):
         "np.genfromtxt(comments=None) line handling as modelled by `gfSplit` (no comment character: '#' is data; "
         "strip(' \\r\\n'), empty lines skipped, "
         "equal field counts without usecols, a row valid with usecols once it reaches the last selected column)",
-        "the utf-8-sig codec removes the BOM; universal newlines; both layouts start with the delimiter",
+        "UTF-8 decoding of the bytes; BOM removal, universal newlines and line splitting as modelled by `decodeLines` (compared with "
+        "Python's text layer on every file under 20000 characters, trusted beyond); both layouts start with the delimiter",
+        "histories: os.utime / os.replace / shutil.copyfile put the files where the events sent to the driver say they are",
         "the files written by harness/gen_thermo.py are compared in every case, field by field and (read back through Python's "
         "text layer) line by line, with the tables and the text rendered by the Lean model; the model's readers run on that "
         "text split again (lines under 20000 characters) or on the table (longer lines)",
@@ -167,6 +175,8 @@ class C03(Prop):
         "name or 'MainRuns' (a '#' is allowed anywhere: sample names, labels, fields); sample names of the columns layout "
         "non-empty; every line ends with the delimiter (as Qtegra writes it)",
         "a channel that was not exported: the readers raise (compared with the model only, the property is silent)",
+        "histories: load and the readers are not called on a text that is no export, a reader is only called for the layout / "
+        "decimal mark / delimiter of the file its path holds (the property is silent otherwise)",
         "texts outside the export format (kind 'text'): compared with the model only. strict (rows layout, edits that only "
         "exercise str.split of the header rows and np.genfromtxt(usecols) on the sample rows; unedited columns exports): "
         "every reader, the sniffer and load equal the model, exceptions included. soft (everything else): a correspondence "
